@@ -24,6 +24,8 @@ func init() {
 }
 
 func runC06(w *World, r *Report) {
+	r.Rule("observers", "methods that formatting calls implicitly (String, Error, …) leave the value unchanged", 1)
+	observerRule(w, r, "observers", "openflow13", "protocol", "util")
 	r.Rule("declen", "stored length fields the size rules rely on are kept equal to the element size by every constructor and builder", 13)
 	declenRule(w, r)
 	r.Rule("size", "sizeM ≡ sizeL (and extentM ≡ sizeL up to round8) as symbolic terms, per kind", 100)
